@@ -192,8 +192,10 @@ func (h *hist) opMarshal(t *rapid.T) {
 			op = opGenMarshal
 		}
 	}
+	h.w.WatchBegin(&opNames[op])
 	got := doMarshal(op, h.m)
 	want := doMarshal(op, fresh)
+	h.w.WatchEnd()
 	h.judged++
 	if cache0 > 0 {
 		h.warm++
